@@ -3,7 +3,7 @@
 Space: every sequence of <=3 (quick) / <=4 (thorough) lexemes over SIGMA_S (one lexeme per re2c rule and per
 hand-written cursor adjustment of _uscan.re), plus every sequence of <=5 / <=6 lexemes over the 12 lexemes that
 take part in cursor rewinds (this replaces the statement's "randomly for longer ones": no sampling here).
-Oracle: the tiling law itself (no reference model needed).
+Oracle: the tiling law itself (no reference model needed), on utoken.scan() and on the token stream utoken.tokenize() hands to the parser.
 """
 from mc.core.runner import InputProp
 from mc.core.space import Seqs, Concat
@@ -71,6 +71,7 @@ class C10(InputProp):
     def prepare(self, tier):
         from mwlib.parser.token import utoken
         self.scan = utoken.scan
+        self.tokenize = utoken.tokenize
         if tier == "quick":
             self.space = Concat(Seqs(SIGMA_S, 3, name="sigma"), Seqs(SIGMA_REWIND, 5, minlen=4, name="rewind"))
         else:
@@ -84,6 +85,12 @@ class C10(InputProp):
         key = tuple(t[0] for t in toks)
         if bad:
             return {"key": key, "steps": len(toks), "viol": [{"sig": bad[0], "msg": bad[1] + " input=%r tokens=%r" % (text, toks)}]}
+        if text:
+            # the token stream the parser consumes (CompatScanner splits/retags tokens but must keep the tiling)
+            toks2 = [(t.type, t.start, t.len) for t in self.tokenize(text)]
+            bad = check_tiling(text, toks2)
+            if bad:
+                return {"key": key, "steps": len(toks), "viol": [{"sig": "tokenize:" + bad[0], "msg": bad[1] + " input=%r tokenize() spans=%r" % (text, toks2)}]}
         return {"key": key, "steps": len(toks)}
 
     def describe(self, case):
